@@ -223,6 +223,10 @@ def seq_fork(w):
     H['@__kmpc_global_thread_num'] = lambda it, a: 0
     H['@__kmpc_push_num_threads'] = lambda it, a: w.omp_calls.append(('num_threads', a[2]))
     H['@__kmpc_barrier'] = lambda it, a: None
+    # '#pragma omp parallel ... if(cond)': when cond is false the caller brackets a direct call of the outlined function with these two
+    # (a team of one: no concurrency, the worksharing loop hands that single member the whole iteration space)
+    H['@__kmpc_serialized_parallel'] = lambda it, a: None
+    H['@__kmpc_end_serialized_parallel'] = lambda it, a: None
 
 def install_gmp(w):
     """GMP C entry points as operations on mathematical integers (python int when concrete, z3 Int when symbolic)."""
